@@ -1,4 +1,11 @@
-//@ inject crate=transport src=quic/s2n-quic-transport/src/connection/peer_id_registry.rs
+// NOT DISCHARGED -- kept as a record (see contracts/STRENGTH-c13.md, "attempts").  Contract harness for
+// PeerIdRegistry::on_new_connection_id; to use it, move it back to contracts/kani/transport/pidr.rs and restore the
+// first line to `//@ inject crate=transport src=quic/s2n-quic-transport/src/connection/peer_id_registry.rs`.
+//   K=1: 5.3 GB and no result after 20 min (killed).  The crate's own check_consistency() clones the registry into a
+//   Vec and runs three sort_by_key + dedup_by_key passes, one of them over the 16-byte tokens (memcmp of 16 bytes =>
+//   global unwind bound 17 for every loop of the harness).  Next step: stub PeerIdRegistry::check_consistency by its
+//   meaning (pairwise distinct sequence numbers / ids / tokens, asserted directly by the harness) and drop to unwind 6.
+// (inject) crate=transport src=quic/s2n-quic-transport/src/connection/peer_id_registry.rs
 // Contract harnesses for PeerIdRegistry (property C13: connection ids the peer issued to this endpoint).
 // Predicates: contracts/spec/conn_ids.rs (shared with the Verus lemmas in verus/lemmas/C13.rs).
 //
@@ -305,8 +312,8 @@ fn ncid_body(n: usize) {
 }
 
 // check_consistency() sorts the registered ids by their 16-byte tokens: a 16-iteration memcmp, hence unwind 17
-//@ harness props=C13 tier=thorough level=bounded bound="K=1 registered peer id before the call, 4-byte concrete distinct id values" timeout=2400 mem=12
-//@ fn PeerIdRegistry::on_new_connection_id
+// (harness) props=C13 tier=thorough level=bounded bound="K=1 registered peer id before the call, 4-byte concrete distinct id values" timeout=2400 mem=12
+// (fn) PeerIdRegistry::on_new_connection_id
 #[kani::proof]
 #[kani::unwind(17)]
 #[kani::stub(crate::connection::connection_id_mapper::StatelessResetMap::insert, stub_token_insert)]
@@ -317,8 +324,8 @@ fn vq_c13_pidr_on_new_connection_id_k1() {
     ncid_body(1);
 }
 
-//@ harness props=C13 tier=thorough level=bounded bound="K=2 registered peer ids before the call, 4-byte concrete distinct id values" timeout=2400 mem=12
-//@ fn PeerIdRegistry::on_new_connection_id
+// (harness) props=C13 tier=thorough level=bounded bound="K=2 registered peer ids before the call, 4-byte concrete distinct id values" timeout=2400 mem=12
+// (fn) PeerIdRegistry::on_new_connection_id
 #[kani::proof]
 #[kani::unwind(17)]
 #[kani::stub(crate::connection::connection_id_mapper::StatelessResetMap::insert, stub_token_insert)]
@@ -329,8 +336,8 @@ fn vq_c13_pidr_on_new_connection_id_k2() {
     ncid_body(2);
 }
 
-//@ harness props=C13 tier=thorough level=bounded bound="K=3 registered peer ids before the call (the advertised limit), 4-byte concrete distinct id values" timeout=2400 mem=12
-//@ fn PeerIdRegistry::on_new_connection_id
+// (harness) props=C13 tier=thorough level=bounded bound="K=3 registered peer ids before the call (the advertised limit), 4-byte concrete distinct id values" timeout=2400 mem=12
+// (fn) PeerIdRegistry::on_new_connection_id
 #[kani::proof]
 #[kani::unwind(17)]
 #[kani::stub(crate::connection::connection_id_mapper::StatelessResetMap::insert, stub_token_insert)]
